@@ -2,7 +2,7 @@
 
 MANIFEST = dict(
     text="TLC exhausts Sys_Stats (the stats object's critical sections transcribed from extras/trafficlogger/http.go, called by 3 concurrent processes in every interleaving; plus the server-side connection life cycle of core/server: online +1 per accepted auth, -1 when the handler returns, refused report closes the connection) against the Prop_C15 monitor, whose clauses are order independent or judged on isolated calls only. TLC-generated operation histories are replayed on the real stats server (LogTraffic/LogOnlineState + ServeHTTP), goroutines hammer it with every call recorded as a Call/Ret pair, and TLC-generated connection histories are replayed on a real core server + real clients over loopback UDP with the real stats server as TrafficLogger; every recorded trace is validated by TLC against the same monitor.",
-    note="Trusted: TLC, the Go scheduler to produce overlapping calls (the split-clear / unlocked-add / RLock-clear mutants are caught in every seed tried), loopback UDP delivery within the bounded census wait (10 s, 14 s for abrupt client loss). Model bounds: 2 users, 3 processes x 3(4) operations; 2(3) connections x 7(11) steps. A second kick of a user while one is pending is not judged (statement silent).",
+    note="Trusted: TLC, the Go scheduler to produce overlapping calls (the split-clear / unlocked-add / RLock-clear mutants are caught in every seed tried), loopback UDP delivery within the bounded census wait (10 s, 14 s for abrupt client loss). Model bounds: 2 users, 3 processes x 4(5) operations; 2(3) connections x 7(11) steps. A second kick of a user while one is pending is not judged (statement silent).",
     tech="TLA+ model checking (TLC) + TLC-generated scenario replay + TLC trace validation of real-code traces (Call/Ret histories, order-independent monitor)", ref="5/C15")
 
 
@@ -30,6 +30,8 @@ def json_key(x):
 def run(ctx):
     T = ctx.thorough
     ctx.tlc_mc("MC_Stats", "MC_Stats_big.cfg" if T else "MC_Stats.cfg", timeout=1500, coverage=T)
+    if T:
+        ctx.tlc_mc("MC_Stats", "MC_Stats_big5.cfg", timeout=1500)
     ctx.tlc_mc("MC_Stats", "MC_Stats_online_big.cfg" if T else "MC_Stats_online.cfg", timeout=900)
     ctx.tlc_mc("MC_Stats", "MC_Stats_conn_big.cfg" if T else "MC_Stats_conn.cfg", timeout=900, coverage=T)
     for m in ("mutClear", "mutKick", "mutVeto") + (("mutLog", "mutFloor") if T else ()):
